@@ -12,16 +12,18 @@ import (
 
 type EnumCache struct {
 	sync.Mutex
-	enums map[pref.FullName]*enumAliasInfo
+	// keyed by the enum descriptor itself (not by its full name): descriptors
+	// of different proto sets loaded in one process may share a full name.
+	enums map[pref.EnumDescriptor]*enumAliasInfo
 }
 
 func (ec *EnumCache) GetValueByAlias(ed pref.EnumDescriptor, valueAlias string) (pref.Value, error) {
 	ec.Lock()
-	aliasInfo, ok := ec.enums[ed.FullName()]
+	aliasInfo, ok := ec.enums[ed]
 	if !ok {
 		// create and insert if not existed
 		aliasInfo = &enumAliasInfo{}
-		ec.enums[ed.FullName()] = aliasInfo
+		ec.enums[ed] = aliasInfo
 	}
 	ec.Unlock()
 
@@ -65,6 +67,6 @@ var enumCache *EnumCache
 
 func init() {
 	enumCache = &EnumCache{
-		enums: make(map[pref.FullName]*enumAliasInfo),
+		enums: make(map[pref.EnumDescriptor]*enumAliasInfo),
 	}
 }
